@@ -75,11 +75,12 @@ Inductive rtest :=
 | RNsAny (uri : str)
 | RLocalAny (local : str)
 | RQName (uri local : str)
-| RName (local : str).
+| RName (local : str)
+| RNsValue (uri : str).   (* namespace::q, the library's own rule: namespace nodes whose VALUE is the URI the query binds q to *)
 
 (** Err on an unbound prefix: the handler looks the prefix up before it looks at
     any candidate node *)
-Definition resolve_test (en : env) (t : nodetest) : res rtest :=
+Definition resolve_test (en : env) (a : axis) (t : nodetest) : res rtest :=
   match t with
   | NTNode => Ok RNode
   | NTText => Ok RText
@@ -90,7 +91,14 @@ Definition resolve_test (en : env) (t : nodetest) : res rtest :=
   | NTNsAny pf => match assoc_str pf (e_ns en) with Some u => Ok (RNsAny u) | None => Err end
   | NTLocalAny l => Ok (RLocalAny l)
   | NTQName pf l => match assoc_str pf (e_ns en) with Some u => Ok (RQName u l) | None => Err end
-  | NTName l => Ok (RName l)
+  | NTName l =>
+      match a with
+      | Namespace =>
+          (* outside XPath 1.0 (which compares the prefix): the unprefixed name is looked up in the
+             query's bindings like a prefix; unbound means the empty URI *)
+          Ok (RNsValue (match assoc_str l (e_ns en) with Some u => u | None => [] end))
+      | _ => Ok (RName l)
+      end
   end.
 
 (** [test_node] : does the candidate pass the (resolved) node test? *)
@@ -131,6 +139,8 @@ Definition test_node (d : anode) (pr : principal) (t : rtest) (p : path) : bool 
           | Some nm => str_eqb (q_space nm) [] && str_eqb (q_local nm) l
           | None => false
           end
+      | RNsValue u =>
+          match pr, it with PNs, INs a => str_eqb (ns_uri a) u | _, _ => false end
       end
   end.
 
@@ -358,7 +368,7 @@ Fixpoint eval_args (fs : list (ctx -> res value)) (c : ctx) : res (list value) :
 (** one axis step from one context node: candidates in axis order, node test, predicates *)
 Definition step_from (en : env) (a : axis) (t : nodetest) (preds : list (ctx -> res value))
            (p : path) : res (list path) :=
-  match resolve_test en t with
+  match resolve_test en a t with
   | Err => Err
   | Ok rt =>
       apply_preds en preds
